@@ -24,8 +24,11 @@
     * finding_C02_F3 — heap search on a state-threading TTCFG never yields a member;
     * finding_C02_HS_recursive (finding C03-F4) — on a recursive grammar (`CFG.infinite`) heap search stops after 5
       programs and never yields a member (`_reevaluate_` leaves the max-priority tables out of sync).
-  NOT proved: completeness and termination (DESIGN B.2 induction on the rank), no-duplicates with a
-  filter, and everything about the unambiguous-grammar machine (UHeapSearch); they are checked on
+    * COMPLETENESS WHEN THE GENERATOR STOPS (item 6, partial correctness), acyclic context-free
+      grammars, heap search with threshold 0 and no filter: C02_HS_complete, C02_HS_exactly_once
+      (output duplicate-free and equal to the language), C02_HS_exhausted_complete;
+  NOT proved: termination (that the generator stops), completeness for bucket search / thresholds,
+  no-duplicates with a filter, and everything about the unambiguous-grammar machine (UHeapSearch); they are checked on
   every generated case against the independent language oracle and by exact correspondence of the
   model with the implementation.
 -/
@@ -36,6 +39,7 @@ import PS.Proofs.Enum.HeapSearch
 import PS.Proofs.Enum.HSSoundInit
 import PS.Proofs.Enum.HSPrio
 import PS.Proofs.Enum.HSNodupRun
+import PS.Proofs.Enum.HSCompleteCheck
 namespace PS.C02HS
 open PS PS.G
 
@@ -227,6 +231,60 @@ example : ∀ g' out b, take cE 50 10 (Gen.new cG) [] = some (g', out, b) → ou
 example : ∀ g' out b, take E3 200 40 (Gen.new w3G) [] = some (g', out, b) → out.Nodup :=
   fun g' out b h => C02_HS_nodup E3 (fun _ => rfl) 200 40 g' out b h
 end Nodup
+
+/-! ### completeness (item 6, partial correctness): acyclic context-free grammars -/
+section Complete
+open PS.HS
+variable {S : Type} [DecidableEq S]
+
+/-- **COMPLETENESS when the generator stops** — heap search (`HeapSearch`, threshold 0, no filter) on an
+    acyclic context-free grammar: if after `k` calls of `next` the generator has raised `StopIteration`
+    (third component `true`), every member of the grammar was yielded.
+    `HS.CompHyp` (all decidable on a literal grammar, see `HS.compHyp_of_checks`): priorities are the
+    probabilities, weights non-negative and defined for every rule, `rank` strictly decreases from a
+    non-terminal to the non-terminals of its rules, dict keys distinct, no empty row, every
+    non-terminal used by a rule has a row, no filter.
+    Proof: DESIGN B.2 — (I2) seen = heap ∪ popped (`HS.CInv`, uses that `compute_priority` never
+    fails: `HS.computePrio_total`), (I3) every popped program has, at every argument position, either the
+    successor program pushed or an exhausted argument (`HS.big_i3`), exhausted heaps stay exhausted
+    (`HS.big_emptyStable`), the table structure (`HS.TInv`), then induction on the rank and on the
+    distance of the argument tuple from the first pops (`HS.exhausted_complete`).
+    NOT proved: that the generator does stop (termination); on recursive grammars the statement is
+    false (`finding_C02_HS_recursive`). -/
+theorem C02_HS_complete (E : Env S Unit Rat) (rank : NT S Unit → Nat) (C : CompHyp E rank) (fuel k : Nat)
+    (g' : Gen S Unit Rat) (out : List Prog) (h : take E fuel k (Gen.new E.G) [] = some (g', out, true)) :
+    ∀ p, contains E.G p = true → p ∈ out := by
+  intro p hp
+  rw [contains_eq_gen] at hp
+  exact take_complete E rank C fuel k g' out h p hp
+
+/-- **exactly once**: when the generator stops, its output lists the language without repetition -/
+theorem C02_HS_exactly_once (E : Env S Unit Rat) (rank : NT S Unit → Nat) (C : CompHyp E rank) (fuel k : Nat)
+    (g' : Gen S Unit Rat) (out : List Prog) (h : take E fuel k (Gen.new E.G) [] = some (g', out, true)) :
+    out.Nodup ∧ ∀ p, p ∈ out ↔ contains E.G p = true :=
+  ⟨C02_HS_nodup E C.nofilter fuel k g' out true h,
+   fun p => ⟨fun hp => C02_HS_sound E C.init.rows fuel k g' out true h p hp,
+             fun hp => C02_HS_complete E rank C fuel k g' out h p hp⟩⟩
+
+/-- the inner statement: in a quiescent state, a non-terminal whose heap is empty has popped
+    every program derivable from it -/
+theorem C02_HS_exhausted_complete (E : Env S Unit Rat) (rank : NT S Unit → Nat) (H : OrdHyp E rank)
+    (hcl : Closed E.G) (H0 : NT S Unit → List (Rat × Prog)) (s : St S Unit Rat) (Q : Quiet E H0 s)
+    (nt : NT S Unit) (hempty : s.heapOf nt = []) (p : Prog) (hg : gen E.G p nt = true) :
+    ∃ k, AList.lookup k (s.succOf nt) = some p :=
+  exhausted_complete H hcl Q _ nt rfl hempty p hg
+
+def cRank (nt : NT Nat Unit) : Nat := 1 - nt.2.1
+
+theorem cE_hyp : CompHyp cE cRank :=
+  compHyp_of_checks cE cRank rfl (by decide +kernel) (by decide) (by decide) (by decide) (by decide)
+    (by decide +kernel) (by decide) (fun _ => rfl)
+
+/-- on the example grammar the generator stops after its 5 programs, which are exactly the language -/
+example : ∀ g' out, take cE 50 10 (Gen.new cG) [] = some (g', out, true) →
+    out.Nodup ∧ ∀ p, p ∈ out ↔ contains cG p = true :=
+  fun g' out h => C02_HS_exactly_once cE cRank cE_hyp 50 10 g' out h
+end Complete
 
 /-! ### finding: heap search stops early on a recursive grammar (max-priority tables out of sync) -/
 section Reentrant
